@@ -16,9 +16,12 @@ import (
 //	C10|<kind>|nan-sign-lost                                NaN in, NaN of the other sign out
 //	C10|fp128|0xL-words-swapped|first-word-nan-shaped|printed-as-library-nan
 //	C10|x86_fp80|unnormal|printed-as-finite-value
-//	C10|ppc_fp128|non-canonical-pair|renormalised|same-value
+//	C10|ppc_fp128|negative-infinity-printed-as-positive
+//	C10|ppc_fp128|non-canonical-pair|replaced-by-its-sum
+//	C10|ppc_fp128|non-canonical-pair|panic-when-sum-is-not-a-double
 //	C10|ppc_fp128|pair|sum-rounded-to-106-bits
 //	C10|double|decimal|subnormal-range|rounded-twice
+//	C10|half|decimal|reads-as-infinity|not-printed-as-infinity
 //	C10|<kind>|<spelling>|<class in>-><class out>|changed:<fields>      everything else
 //
 // so that a non-NaN value that changes, a NaN that changes its sign, a zero that loses its
@@ -83,40 +86,8 @@ func classify(cs *caseT, law, inCls, outCls, diff string) (sig, what string) {
 	}
 	switch q.kind {
 	case "ppc_fp128":
-		hiIn, hiOut := strings.SplitN(inCls, "+", 2)[0], strings.SplitN(outCls, "+", 2)[0]
-		loIn := strings.SplitN(inCls, "+", 2)[1]
-		if isNaNClass(hiIn) && isNaNClass(hiOut) {
-			if strings.Contains(strings.SplitN(diff, ",", 2)[0], "s") {
-				return "C10|ppc_fp128|nan-sign-lost", what
-			}
-			return "C10|ppc_fp128|nan-payload-or-signalling-bit-lost", what
-		}
-		if !isNaNClass(hiIn) && isNaNClass(loIn) && isNaNClass(hiOut) {
-			return "C10|ppc_fp128|non-canonical-pair|nan-low-part-makes-the-constant-nan", what
-		}
-		vin, okIn := pairValue(cs.inR.bits)
-		vout, okOut := pairValue(cs.outR.bits)
-		canon := canonicalPair(cs.inR.bits)
-		if okIn && okOut {
-			if vin.Cmp(vout) == 0 {
-				// the sign of a zero is the sign of the high part
-				sIn, sOut := cs.inR.bits[0] >= '8', cs.outR.bits[0] >= '8'
-				if !canon && (vin.Sign() != 0 || sIn == sOut) {
-					return "C10|ppc_fp128|non-canonical-pair|renormalised|same-value", what
-				}
-			} else {
-				r := new(big.Float).SetPrec(106).SetMode(big.ToNearestEven).Set(vin)
-				if r.Cmp(vout) == 0 {
-					return "C10|ppc_fp128|pair|sum-rounded-to-106-bits", what
-				}
-			}
-		} else if !canon && !okIn {
-			// inf high part with a non-zero low part, or finite high part with an inf low part
-			hi, lo := math.Float64frombits(u64(cs.inR.bits[:16])), math.Float64frombits(u64(cs.inR.bits[16:]))
-			ohi, olo := math.Float64frombits(u64(cs.outR.bits[:16])), u64(cs.outR.bits[16:])
-			if s := hi + lo; !math.IsNaN(s) && math.IsInf(s, 0) && ohi == s && olo == 0 {
-				return "C10|ppc_fp128|non-canonical-pair|renormalised|same-value", what
-			}
+		if sig := classifyPPC(cs.inR.bits, cs.outR.bits); sig != "" {
+			return sig, what
 		}
 		return generic, what
 	case "fp128":
@@ -142,6 +113,9 @@ func classify(cs *caseT, law, inCls, outCls, diff string) (sig, what string) {
 			}
 		}
 	}
+	if q.kind == "half" && il.Form == "dec" && inCls == "inf" && outCls != "inf" {
+		return "C10|half|decimal|reads-as-infinity|not-printed-as-infinity", what
+	}
 	if isNaNClass(inCls) && isNaNClass(outCls) {
 		if strings.Contains(diff, "s") {
 			return fmt.Sprintf("C10|%s|nan-sign-lost", q.kind), what
@@ -149,4 +123,81 @@ func classify(cs *caseT, law, inCls, outCls, diff string) (sig, what string) {
 		return fmt.Sprintf("C10|%s|nan-payload-or-signalling-bit-lost", q.kind), what
 	}
 	return generic, what
+}
+
+func parts(bits string) (hi, lo float64, hiB, loB uint64) {
+	hiB, loB = u64(bits[:16]), u64(bits[16:])
+	return math.Float64frombits(hiB), math.Float64frombits(loB), hiB, loB
+}
+
+// sumOverflows reports whether the double nearest to hi+lo (rounded to 106 bits first) is infinite.
+func sumOverflows(bits string) bool {
+	v, ok := pairValue(bits)
+	if !ok {
+		return false
+	}
+	r := new(big.Float).SetPrec(106).SetMode(big.ToNearestEven).Set(v)
+	f, _ := r.Float64()
+	return math.IsInf(f, 0)
+}
+
+// classifyPPC recognises the ways in which the library's detour through a 106-bit sum changes
+// a double-double pair; "" if the change is none of them.
+func classifyPPC(in, out string) string {
+	hi, lo, _, _ := parts(in)
+	ohi, _, _, oloB := parts(out)
+	canon := canonicalPair(in)
+	switch {
+	case math.IsNaN(hi):
+		if math.IsNaN(ohi) {
+			if (in[0] >= '8') != (out[0] >= '8') {
+				return "C10|ppc_fp128|nan-sign-lost"
+			}
+			return "C10|ppc_fp128|nan-payload-or-signalling-bit-lost"
+		}
+		return ""
+	case math.IsNaN(lo):
+		if math.IsNaN(ohi) {
+			return "C10|ppc_fp128|non-canonical-pair|replaced-by-its-sum"
+		}
+		return ""
+	case math.IsInf(hi, 0) || math.IsInf(lo, 0):
+		s := hi + lo
+		if math.IsInf(s, -1) && math.IsInf(ohi, 1) && oloB == 0 {
+			return "C10|ppc_fp128|negative-infinity-printed-as-positive"
+		}
+		if math.IsInf(s, 1) && math.IsInf(ohi, 1) && oloB == 0 && !canon {
+			return "C10|ppc_fp128|non-canonical-pair|replaced-by-its-sum"
+		}
+		return ""
+	}
+	vin, _ := pairValue(in)
+	vout, okOut := pairValue(out)
+	if !okOut {
+		return ""
+	}
+	if vin.Cmp(vout) == 0 {
+		// the sign of a zero is the sign of the high part
+		if !canon && (vin.Sign() != 0 || (in[0] >= '8') == (out[0] >= '8')) {
+			return "C10|ppc_fp128|non-canonical-pair|replaced-by-its-sum"
+		}
+		return ""
+	}
+	r := new(big.Float).SetPrec(106).SetMode(big.ToNearestEven).Set(vin)
+	if r.Cmp(vout) == 0 {
+		return "C10|ppc_fp128|pair|sum-rounded-to-106-bits"
+	}
+	return ""
+}
+
+// classifyPPCPanic recognises the panics of the detour: the sum of the parts is not a double.
+func classifyPPCPanic(in string) string {
+	hi, lo, _, _ := parts(in)
+	if math.IsNaN(hi) || math.IsNaN(lo) || canonicalPair(in) {
+		return ""
+	}
+	if (math.IsInf(hi, 0) && math.IsInf(lo, 0) && math.Signbit(hi) != math.Signbit(lo)) || sumOverflows(in) {
+		return "C10|ppc_fp128|non-canonical-pair|panic-when-sum-is-not-a-double"
+	}
+	return ""
 }
